@@ -76,14 +76,52 @@ func gen(r *hx.Rand, n int, tier string, emit func(string), st *hx.Stats) {
 			continue
 		}
 		tuples := fga.GenTuples(c, m, 4+c.Intn(20))
+		// "flip" tuples: valid tuples that are NOT stored and are passed as contextual tuples by some
+		// requests of the sequence and not by others — the same request then has two answers, and a cache
+		// key that forgets the contextual tuples (or the context) serves one for the other
+		var flips []fga.Tuple
+		if c.Chance(1, 2) && len(tuples) > 3 {
+			nf := 1 + c.Intn(2)
+			for f := 0; f < nf && len(tuples) > 2; f++ {
+				ix := c.Intn(len(tuples))
+				if validation.ValidateTupleForWrite(ts, tuples[ix].Key()) == nil {
+					flips = append(flips, tuples[ix])
+					tuples = append(tuples[:ix:ix], tuples[ix+1:]...)
+				}
+			}
+		}
 		// one subject and context dominate the sequence so that sub-problems overlap
 		base := fga.GenReq(c, m, tuples)
 		k := 4 + c.Intn(12)
 		var steps []step
+		var pivot *fga.Req
 		for j := 0; j < k; j++ {
 			rq := fga.GenReq(c, m, tuples)
 			if c.Chance(4, 5) {
 				rq.User, rq.Ctx = base.User, base.Ctx
+			}
+			if len(flips) > 0 {
+				// repeat one request around the flip tuple with and without it, and with another context
+				if pivot == nil {
+					f := flips[0]
+					pv := fga.Req{Obj: f.Obj, Rel: f.Rel, User: base.User, Ctx: base.Ctx}
+					if c.Chance(1, 2) {
+						pv.User = f.User
+					}
+					pivot = &pv
+				}
+				if c.Chance(1, 2) {
+					rq = *pivot
+					if c.Chance(1, 4) {
+						rq.Ctx = fga.GenReqCtx(c, m)
+					}
+				}
+				var ctxT []fga.Tuple
+				if c.Chance(1, 2) {
+					ctxT = append(ctxT, flips[c.Intn(len(flips))])
+				}
+				steps = append(steps, step{rq, ctxT})
+				continue
 			}
 			var ctxT []fga.Tuple
 			if c.Chance(1, 8) {
